@@ -79,11 +79,16 @@ CountersOk(c, r, p) ==
   /\ p.nfev = r.nfev /\ p.nlu = r.nlu
   /\ IF c.jac = "const" THEN p.njev \in {0, r.njev} ELSE p.njev = r.njev
 
-\* without a sparsity pattern the user's functions are called exactly as often as by the Rust API
+\* without a sparsity pattern the user's functions are called exactly as often as by the Rust API; a pattern may change the
+\* number of right-hand-side evaluations only when it is USED, i.e. when no jac is given (PyLayer JacSourceContract: with
+\* jac given the pattern is not used at all, so nothing changes)
 CallsOk(c, r, p) ==
-  /\ (~c.has_sparsity => p.calls = r.calls)
+  /\ ((~c.has_sparsity \/ c.jac # "none") => p.calls = r.calls)
   /\ (c.jac = "callable" => p.jcalls = r.jcalls)
   /\ p.ecalls = r.ecalls * c.nevents        \* the Rust trait evaluates all events in one call
+
+\* a callable jac IS called whenever the solver asked for a Jacobian (with or without a jac_sparsity pattern next to it)
+JacCalledOk(c, r, p) == (c.jac = "callable" /\ r.jcalls > 0) => p.jcalls > 0
 
 \* sol: present iff requested; (n,) per scalar probe; equal to Solution::sol inside the covered span; never raises outside
 NProbes(c) == Len(c.probes) + Len(c.probes_out)
@@ -143,6 +148,7 @@ Clauses(x) ==
      <<"status", StatusOk(r, p), [rust |-> r.status, status |-> p.status, success |-> p.success, message |-> p.message]>>,
      <<"counters", CountersOk(c, r, p), [rust |-> <<r.nfev, r.njev, r.nlu>>, py |-> <<p.nfev, p.njev, p.nlu>>]>>,
      <<"calls", CallsOk(c, r, p), [rust |-> <<r.calls, r.jcalls, r.ecalls>>, py |-> <<p.calls, p.jcalls, p.ecalls>>]>>,
+     <<"jac-called", JacCalledOk(c, r, p), [rust_jcalls |-> r.jcalls, py_jcalls |-> p.jcalls, has_sparsity |-> c.has_sparsity]>>,
      <<"sol-presence", SolPresenceOk(c, p), [dense |-> c.dense, has_sol |-> p.has_sol]>>,
      <<"sol", SolPresenceOk(c, p) => SolScalarOk(c, n, r, p), [rust |-> r.sol, py |-> p.sol]>>,
      <<"solshape", (SolPresenceOk(c, p) /\ SolScalarOk(c, n, r, p)) => (SolArrayOk(c, n, p, p.sol_list) /\ SolArrayOk(c, n, p, p.sol_nd)),
@@ -168,10 +174,12 @@ CheckBoth(x) ==
      \* Level B drift
      /\ (allok /\ c.jac = "const" /\ p.njev # 0) => Drift("njev-const", x, p.njev)
      /\ (allok /\ p.message # r.status) => Drift("message", x, p.message)
-     /\ (allok /\ c.has_sparsity /\ p.calls # r.calls - r.njev * (c.n + 1) + r.njev * (c.pat.ngroups + 1))
+     /\ (allok /\ c.has_sparsity /\ c.jac = "none" /\ p.calls # r.calls - r.njev * (c.n + 1) + r.njev * (c.pat.ngroups + 1))
            => Drift("sparse-calls", x, [py |-> p.calls, rust |-> r.calls, njev |-> r.njev, ngroups |-> c.pat.ngroups])
      /\ (~StrictEmpty /\ r.m = 0 /\ p.y.shape # <<c.n, 0>>) => Drift("empty-shape", x, p.y.shape)
      \* coverage notes (which contract antecedents the real traces exercised)
+     /\ ((c.has_sparsity /\ c.jac # "none") => Note("jac-with-pattern", x))
+     /\ ((c.has_sparsity /\ c.jac = "none" /\ p.calls # r.calls) => Note("pattern-changed-evaluation-count", x))
      /\ (r.status # "Success" => Note(r.status, x))
      /\ ((\E e \in 1..Len(r.t_events) : Len(r.t_events[e]) > 0) => Note("event-found", x))
 
